@@ -36,6 +36,14 @@ var Root = func() string {
 	return "/verif"
 }()
 
+// Out is where evidence and replay files go: Root, unless the scratch mode of ./check set VERIF_OUT.
+var Out = func() string {
+	if r := os.Getenv("VERIF_OUT"); r != "" {
+		return r
+	}
+	return Root
+}()
+
 type Tier string
 
 const (
@@ -290,7 +298,7 @@ func (r *Run) Violation(key string, caseIdx int64, what string, witness any) boo
 	}
 	sum := sha256.Sum256([]byte(key))
 	name := fmt.Sprintf("%s-%s-%s.json", r.ID, r.Tier, hex.EncodeToString(sum[:6]))
-	path := filepath.Join(Root, "replay", name)
+	path := filepath.Join(Out, "replay", name)
 	_ = os.MkdirAll(filepath.Dir(path), 0o755)
 	doc := map[string]any{
 		"property": r.ID, "key": key, "what": what, "seed": r.Seed, "tier": r.Tier,
@@ -368,8 +376,8 @@ func (r *Run) Finish() {
 		fmt.Printf("INCONCLUSIVE property=%s cannot marshal evidence: %v\n", r.ID, err)
 		os.Exit(2)
 	}
-	_ = os.MkdirAll(filepath.Join(Root, "evidence"), 0o755)
-	if err := os.WriteFile(filepath.Join(Root, "evidence", r.ID+".json"), append(b, '\n'), 0o644); err != nil {
+	_ = os.MkdirAll(filepath.Join(Out, "evidence"), 0o755)
+	if err := os.WriteFile(filepath.Join(Out, "evidence", r.ID+".json"), append(b, '\n'), 0o644); err != nil {
 		fmt.Printf("INCONCLUSIVE property=%s cannot write evidence: %v\n", r.ID, err)
 		os.Exit(2)
 	}
